@@ -1335,8 +1335,12 @@ func (st *verifC17State) classify(op verifC17Op, stored, exp *verifC17View, befo
 		c.Label("shape:sidecar-proxy")
 	}
 	sharesNode, sharesCheck, moved := false, false, false
+	peerNodes := map[string]bool{} // nodes the peer's stored state has (under any of its services)
+	for _, r := range verifC17PeerRows(before, op.Peer, "nodes") {
+		peerNodes[r.Node] = true
+	}
 	for n := range exp.Nodes {
-		if _, ok := stored.Nodes[n]; ok {
+		if peerNodes[n] {
 			sharesNode = true
 		}
 		if len(exp.NodeChk[n]) > 0 {
